@@ -97,6 +97,16 @@ def values_eq(a, b, st=None):
         if a is None and b is None:
             return True
         return False
+    # symbolic sequences against a concrete list: equal to [] iff empty
+    for x, y in ((a, b), (b, a)):
+        if isinstance(y, Ref) and st is not None:
+            from .values import ListCell, ObjCell
+            cy = st.heap[y.addr]
+            if isinstance(cy, ListCell) and not cy.items:
+                if isinstance(x, (TokList, HistList)):
+                    return x.length == 0
+                if isinstance(x, Ref) and isinstance(st.heap[x.addr], ObjCell) and "__len__" in st.heap[x.addr].attrs:
+                    return int_term(st.heap[x.addr].attrs["__len__"]) == 0
     if is_intlike(a) and is_intlike(b):
         if isinstance(a, (int, bool)) and isinstance(b, (int, bool)):
             return a == b
